@@ -138,8 +138,8 @@ def main():
     for pid, (level, ref, tech, text, note) in sorted(CHECKS.items()):
         checks.append({
             "property_id": pid,
-            "quick_cmd": f"timeout 600 {PY} /verif/dst/run.py {pid} --tier quick",
-            "thorough_cmd": f"timeout 3000 {PY} /verif/dst/run.py {pid} --tier thorough",
+            "quick_cmd": f"timeout 900 {PY} /verif/dst/run.py {pid} --tier quick",
+            "thorough_cmd": f"timeout 3600 {PY} /verif/dst/run.py {pid} --tier thorough",
             "evidence_file": f"/verif/evidence/{pid}.json",
             "replay_cmd_template": f"{PY} /verif/dst/run.py {pid} --replay {{path}}",
             "engine": "dst",
